@@ -2047,6 +2047,17 @@ func init() {
 			}
 		}
 	})
+	register("XLOCK", func(p *engine.Prog, r *engine.Report) {
+		la := engine.NewLockAnalysis(p)
+		var fns []*ssa.Function
+		for _, f := range p.AllFuncs() {
+			if f.Blocks == nil || !engine.IsRepoPkg(engine.FuncPkg(f)) || isTestish(p.Pos(f.Pos())) {
+				continue
+			}
+			fns = append(fns, f)
+		}
+		releasedOnAllPaths(p, la, r, "XLOCK", fns, func(id string) bool { return !strings.HasPrefix(id, "local:") })
+	})
 	register("XMK", func(p *engine.Prog, r *engine.Report) {
 		for _, f := range p.AllFuncs() {
 			if f.Blocks == nil || !engine.IsRepoPkg(engine.FuncPkg(f)) || isTestish(p.Pos(f.Pos())) {
